@@ -88,10 +88,22 @@ func c11(c *core.Ctx) {
 		}
 		_ = loop
 		loc := fl.MustLocate(claim)
-		limited := holdsAt(fl, f.Decl.Body, loc, func(ft core.Fact) bool {
+		// the claim counter: the local incremented in the block that holds the claim append
+		var counterObj types.Object
+		for _, n := range core.PathTo(f.Decl.Body, claim) {
+			if blk, isBlk := n.(*ast.BlockStmt); isBlk {
+				for _, st := range blk.List {
+					if inc, isInc := st.(*ast.IncDecStmt); isInc && inc.Tok == token.INC {
+						if o := core.ObjOf(info, inc.X); o != nil && blk.Pos() <= claim.Pos() && claim.End() <= blk.End() {
+							counterObj = o
+						}
+					}
+				}
+			}
+		}
+		limited := counterObj != nil && holdsAt(fl, f.Decl.Body, loc, func(ft core.Fact) bool {
 			return cmpFact(ft, func(x ast.Expr, op token.Token, y ast.Expr) bool {
-				id, ok := core.Unparen(x).(*ast.Ident)
-				return ok && strings.Contains(strings.ToLower(id.Name), "counter") && op == token.LSS
+				return core.ObjOf(info, x) == counterObj && op == token.LSS
 			})
 		})
 		rC.Check(limited, f.Key+":claim-limited", claim.Pos(), "claim guarded by counter < limit, iterating the ordered slice", "records are claimed without the count limit: a caller can receive more than it asked for")
